@@ -96,7 +96,7 @@ Qed.
 
 Lemma xrun l lay tail :
   Forall xel_ok l -> map snd lay = xlex l -> Forall (fun p => hws (fst p)) lay -> sep_ok lay -> hws tail ->
-  exists m, next_results (length (render lay tail) + 3)
+  exists m, next_results (length (render lay tail) + margin)
               {| buf := {| rest := render lay tail; lastByte := None; lastRune := None; failing := false |}; errs := [] |}
             = res (all_el (map xe_el l)) (NF [] :: repeat (NF []) m) /\ length (all_el (map xe_el l)) <= length (render lay tail).
 Proof.
@@ -111,7 +111,7 @@ Proof.
   { apply (f_equal (@length nres)) in Htoks. now rewrite !map_length in Htoks. }
   assert (Hlen : length lay <= length (render lay tail)).
   { clear -Hlex. induction Hlex as [|[ws x] r _ _ IH]; cbn [length render]; [lia|]. rewrite !app_length. destruct x; cbn [text_of length]; lia. }
-  destruct m as [|m]; [lia|]. exists m. rewrite Hrun, Htoks. split; [reflexivity|lia].
+  destruct m as [|m]; [pose proof margin_ge; lia|]. exists m. rewrite Hrun, Htoks. split; [reflexivity|lia].
 Qed.
 
 Theorem gen_read l lay tail :
@@ -120,7 +120,7 @@ Theorem gen_read l lay tail :
 Proof.
   intros Hok Hl Hws Hsep Ht. destruct (xrun l lay tail Hok Hl Hws Hsep Ht) as (m & Hrun & Hlen).
   unfold read_file. rewrite Hrun. pose proof (proj1 (gneed_le l Hok)) as Hneed.
-  set (n := length (render lay tail) + 3) in *.
+  set (n := length (render lay tail) + margin) in *.
   replace (2 * n + 8) with (gneed (map xe_el l) + (2 * n + 8 - gneed (map xe_el l))) by lia.
   apply gen_top. clear -Hok. induction Hok as [|[[i x] k] l H _ IH]; cbn [map]; constructor; [exact (ok_p _ _ H)|exact IH].
 Qed.
@@ -132,7 +132,7 @@ Theorem gen_format l lay tail :
 Proof.
   intros Hok Hl Hws Hsep Ht. destruct (xrun l lay tail Hok Hl Hws Hsep Ht) as (m & Hrun & Hlen).
   unfold format. rewrite Hrun. pose proof (proj2 (gneed_le l Hok)) as Hneed.
-  set (n := length (render lay tail) + 3) in *.
+  set (n := length (render lay tail) + margin) in *.
   replace (2 * n + 8) with (gfneed (map xe_el l) + (2 * n + 8 - gfneed (map xe_el l))) by lia.
   apply gen_fmt. clear -Hok. induction Hok as [|[[i x] k] l H _ IH]; cbn [map]; constructor; [exact (ok_f _ _ H)|exact IH].
 Qed.
